@@ -37,6 +37,10 @@ func (consumersSuite) Gen(r *rand.Rand, i int) Case {
 	to := []int64{0, 5, 50}[r.Intn(3)]
 	c := Case{Header: fmt.Sprintf("consumers n=%d dur=%d pn=%d pdur=%d psize=%d slo=%d to=%d mc=%d fbmc=%d", n, dur, pn, pdur, 1+r.Intn(4), slo, to,
 		[]int64{-1, 0, 10, 10}[r.Intn(4)], []int64{-1, 0, 10, 10}[r.Intn(4)])}
+	if r.Intn(8) == 0 {
+		c.Header += " coll=run" // the circuit carries rolling.RunStats but no rolling.FallbackStats (collectors set by hand)
+		c.Tags = append(c.Tags, "run-stats-only")
+	}
 	id := 1
 	for j, m := 0, 3+r.Intn(30); j < m; j++ {
 		switch x := r.Intn(100); {
@@ -117,7 +121,15 @@ func (consumersSuite) Run(h map[string]string, ops []string) []string {
 	sc := &sloCounter{}
 	slof := &responsetimeslo.Factory{Config: responsetimeslo.Config{MaximumHealthyTime: time.Duration(getI(h, "slo", 250_000_000))},
 		CollectorConstructors: []func(string) responsetimeslo.Collector{func(string) responsetimeslo.Collector { return sc }}}
-	mgr := &circuit.Manager{DefaultCircuitProperties: []circuit.CommandPropertiesConstructor{sf.CreateConfig, slof.CommandProperties}}
+	statCtor := sf.CreateConfig
+	if h["coll"] == "run" {
+		statCtor = func(name string) circuit.Config {
+			cfg := sf.CreateConfig(name)
+			cfg.Metrics.Fallback = nil // no FallbackStats on this circuit: its part of every report reads zero
+			return cfg
+		}
+	}
+	mgr := &circuit.Manager{DefaultCircuitProperties: []circuit.CommandPropertiesConstructor{statCtor, slof.CommandProperties}}
 	e := newCenvWith(h, mgr)
 	rs, fs := sf.RunStats("c"), sf.FallbackStats("c")
 	var tracker *responsetimeslo.Tracker
